@@ -53,4 +53,8 @@ var registry = []Harness{
 	{Prop: "C07", Pkg: "netmap", Func: "VerifC07Candidates", Link: []string{"netmap"},
 		Quick: [][]int{{2}}, Thorough: [][]int{{3}},
 		Bound: "k (param) consecutive operations, each with symbolic method (addPeer/addPeerIR/addNode/updateState/updateStateIR/deleteNode), symbolic target in the pool {n0,n1}, symbolic state in Z, symbolic Alphabet and node signatures; reference model tracks n0"},
+	{Prop: "C17", Pkg: "neofs", Func: "VerifC17Ballots", Link: []string{"neofs", "processing"},
+		Quick:    [][]int{{0, 1, 3}, {0, 3, 4}, {0, 4, 4}, {1, 4, 4}, {2, 4, 3}, {3, 4, 3}},
+		Thorough: [][]int{{0, 1, 4}, {0, 2, 4}, {0, 3, 5}, {0, 4, 5}, {0, 5, 5}, {0, 6, 5}, {0, 7, 5}, {1, 3, 4}, {1, 4, 5}, {1, 7, 5}, {2, 3, 4}, {2, 4, 4}, {2, 7, 5}, {3, 3, 4}, {3, 4, 4}, {3, 7, 5}},
+		Bound:    "NeoFS contract without Notary, n stored Alphabet keys (param 1), k invocations (param 2) of one method (param 0: setConfig/cheque/alphabetUpdate/innerRingCandidateRemove), each by a symbolic caller (member 0..n-1 or a stranger) for one of two decision ids after a symbolic gap of 0..25 blocks; reference model: live-ballot reading (DESIGN.md C17)"},
 }
